@@ -454,7 +454,10 @@ func chainRun(t *testing.T, run *ev.Run, idx, nblocks int) {
 		{"gc+latest", gcLatestM, "mem"},
 		// the same modes on the persistent backends (their iterators, key / value
 		// memory and transactions differ from the in-memory store's)
-		{"gc@level", func(c *config.Blockchain) { c.RemoveUntraceableBlocks = true; c.GarbageCollectionPeriod = uint32(2 + idx%3) }, "level"},
+		{"gc@level", func(c *config.Blockchain) {
+			c.RemoveUntraceableBlocks = true
+			c.GarbageCollectionPeriod = uint32(2 + idx%3)
+		}, "level"},
 		{"gc+latest@bolt", gcLatestM, "bolt"},
 		{[]string{"latest@level", "gc@bolt", "gc+latest@level"}[idx%3], []func(*config.Blockchain){latestM, gcM, gcLatestM}[idx%3], []string{"level", "bolt", "level"}[idx%3]},
 	}
